@@ -34,6 +34,7 @@ type romodScn struct {
 	Transport string   `json:"transport"` // conn | stdio
 	Missing   bool     `json:"missing"`   // the module directory does not exist yet
 	Mixed     bool     `json:"mixed"`     // several modules with mixed writability are configured
+	ArgForm   string   `json:"argform"`   // normal | no-server (the "--server" line is missing) | long (options spelled out as long options) | dup (options given twice)
 	Layout    string   `json:"layout"`    // alone | sibling | prefix | nested | parent: where writable modules sit relative to the module under test
 }
 
@@ -184,6 +185,21 @@ func romodHandler(w *workerCtx, line []byte) (any, error) {
 		args := []string{"--server", fl}
 		if del {
 			args = append(args, "--delete")
+		}
+		switch s.ArgForm {
+		case "no-server": // a hand-written client that omits the --server line: still receive mode (no --sender)
+			args = args[1:]
+		case "long":
+			args = []string{"--server", "--recursive", "--times", "--links"}
+			if strings.Contains(fl, "n") {
+				args = append(args, "--dry-run")
+			}
+			if del {
+				args = append(args, "--delete")
+			}
+		case "dup":
+			args = append([]string{"--server", "--server"}, args[1:]...)
+			args = append(args, fl)
 		}
 		target := "m/"
 		switch s.Sub {
